@@ -69,6 +69,9 @@ def histories(strict):
         "dt": st.sampled_from([0.017, 0.02, 0.034]),
         "pos": st.sampled_from([0, 0, 65440, 65500, 65530]),          # datagram counters positioned close to the 16-bit wrap
         "on_connect": st.sampled_from([0, 0, 1, 3]),                   # messages the client sends from inside its connect callback
+        # the client's non-blocking socket refuses these sendto() calls (BlockingIOError; counted from the start of the faulty
+        # phase): the application sees the exception and carries on, for the protocol the datagram was sent and lost
+        "send_faults": st.one_of(st.just([]), st.just([]), st.lists(st.integers(1, 90), min_size=1, max_size=4, unique=True)),
     })
 
 
@@ -137,6 +140,8 @@ def body(ctx, c):
         n_first = len(w.net.log) if c.get("pos") else 0
         link.t_base = w.clock.t
         w.net.policy = link
+        if c.get("send_faults"):
+            ch.arm_send_faults(c["send_faults"])
         uid = 0
         total = {"c": 0, "s": 0}
         ticks = list(c["ticks"]) + [[]] * c["idle"]
